@@ -117,20 +117,99 @@ def set_two():
     return o, [(A(), A()), (B(), A()), (B(), B()), (A(), B()), (1, 2), (E(), E())]
 
 
-SETS = [set_diamond, set_dependent, set_wrap, set_two]
+def set_virtual():
+    """abstract classes / protocols accept a subclass without accepting its base (registered and structural)."""
+    import abc
+    import typing
+
+    class Animal: ...
+
+    class Bird(Animal):
+        def fly(self): ...
+
+    class Fish(Animal): ...
+
+    class Swimmer(abc.ABC): ...
+
+    Swimmer.register(Fish)
+
+    @typing.runtime_checkable
+    class Flyer(typing.Protocol):
+        def fly(self): ...
+
+    o = Ovld(name="virt")
+
+    def f(x: Flyer):
+        return "flyer"
+
+    def f2(x: Swimmer):
+        return "swimmer"
+
+    def f3(x: object):
+        return "obj"
+
+    for g in (f, f2, f3):
+        o.register(g)
+    return o, [(Animal(),), (Bird(),), (Fish(),), (1,)]
+
+
+def set_callable():
+    """dependent types whose condition looks at the value's signature: functions sharing one code object."""
+    import functools
+    from typing import Callable
+
+    def deco(fn):
+        @functools.wraps(fn)
+        def wrapper(*a, **k):
+            return fn(*a, **k)
+
+        return wrapper
+
+    @deco
+    def inc(x: int) -> int:
+        return x + 1
+
+    @deco
+    def shout(x: str) -> str:
+        return x.upper()
+
+    def plain(x: int) -> int:
+        return x
+
+    o = Ovld(name="cb")
+
+    def f(fn: Callable[[int], int]):
+        return "int->int"
+
+    def f2(fn: Callable[[str], str]):
+        return "str->str"
+
+    def f3(fn: object):
+        return "obj"
+
+    for g in (f, f2, f3):
+        o.register(g)
+    # process-wide state must not matter either: the documented answers, independent of what was dispatched before
+    return o, [(inc,), (shout,), (plain,), (1,)], [("ok", "'int->int'"), ("ok", "'str->str'"), ("ok", "'int->int'"), ("ok", "'obj'")]
+
+
+SETS = [set_diamond, set_dependent, set_wrap, set_two, set_virtual, set_callable]
 
 
 def c04():
     failing, n = [], 0
     for mk in SETS:
-        _, probes = mk()
+        made = mk()
+        probes, documented = made[1], (made[2] if len(made) > 2 else None)
         alone = []
         for p in probes:
-            o, pr = mk()
+            o, pr = mk()[:2]
             alone.append(outcome(o, *pr[probes.index(p)]))
+        if documented is not None and alone != documented:
+            failing.append(dict(set=mk.__name__, first_calls_on_fresh_functions=alone, documented=documented))
         seqs = list(itertools.permutations(range(len(probes)), 3)) + [(i, i, j) for i in range(len(probes)) for j in range(len(probes))]
         for seq in seqs:
-            o, pr = mk()
+            o, pr = mk()[:2]
             for k, i in enumerate(seq):
                 n += 1
                 got = outcome(o, *pr[i])
@@ -167,8 +246,17 @@ def c05():
     def fintb(x: int):
         return "intb"
 
-    fns = dict(fa=fa, fb=fb, fc=fc, fd=fd, fa2=fa2, fint=fint, fint2=fint2, fintb=fintb)
-    probes = [(A(),), (B(),), (C(),), (D(),), (1,)]
+    def fobj(x: object):
+        return "obj"
+
+    def ftint(x: type[int]):
+        return "type[int]"
+
+    def ftA(x: type[A]):
+        return "type[A]"
+
+    fns = dict(fa=fa, fb=fb, fc=fc, fd=fd, fa2=fa2, fint=fint, fint2=fint2, fintb=fintb, fobj=fobj, ftint=ftint, ftA=ftA)
+    probes = [(A(),), (B(),), (C(),), (D(),), (1,), (int,), (bool,), (B,), (list[int],)]
     scripts = [
         ["+fa", "+fb", "+fc", "call", "+fd", "call"],
         ["+fa", "call", "+fa2", "call", "-fa2", "call"],
@@ -177,6 +265,8 @@ def c05():
         ["+fa", "+fa2", "-fa", "call", "+fb", "call"],
         ["+fint", "call", "+fint2", "call", "-fint2", "call"],
         ["+fint", "+fintb", "-fintb", "+fint2", "call"],  # replace, unregister the replacement, add a different signature
+        ["+fobj", "call", "+ftint", "call", "+ftA", "call", "-ftint", "call"],  # class-valued parameters arrive after first use
+        ["+fobj", "+fa", "call", "+ftA", "call"],
     ]
     per_script = {}
     for si, script in enumerate(scripts):
@@ -290,7 +380,41 @@ def c20():
             outcome(o, *p)
             if counter["n"] != c0:
                 failing.append(dict(probe=repr(p), consultations=counter["n"] - c0))
-    return n, ([dict(name="no_consultation_after_warm_up", n_violations=len(failing), violations=failing[:3])] if failing else [])
+    out = [dict(name="no_consultation_after_warm_up", n_violations=len(failing), violations=failing[:3])] if failing else []
+    # a linked variant that was warmed up BEFORE its parent is first used: the parent's first call changes no method set,
+    # so afterwards the variant must not consult anything again (and likewise a sibling variant, and the other way round)
+    fam_fail = []
+    for first in ("variant", "parent"):
+        counter["n"] = 0
+        par = Ovld(name="par")
+        par.register(f)
+        par.register(f2)
+        par.register(f3)
+        var = par.copy(linkback=True)
+
+        def own(x: E):
+            return ["E"]
+
+        var.register(own)
+        sib = par.copy(linkback=True)
+        fam = {"parent": par, "variant": var, "sibling": sib}
+        order = [first] + [k for k in fam if k != first]
+        pr = [(A(),), (B(),), (E(),)]
+        warmed = []
+        for name in order:
+            for p_ in pr:
+                outcome(fam[name], *p_)
+            warmed.append(name)
+            for w_ in warmed:
+                for p_ in pr:
+                    n += 1
+                    c0 = counter["n"]
+                    outcome(fam[w_], *p_)
+                    if counter["n"] != c0:
+                        fam_fail.append(dict(first_used=first, just_used=name, repeated_call_on=w_, probe=repr(p_), consultations=counter["n"] - c0))
+    if fam_fail:
+        out.append(dict(name="no_consultation_after_warm_up_in_a_linked_family", n_violations=len(fam_fail), violations=fam_fail[:3]))
+    return n, out
 
 
 def main():
